@@ -126,6 +126,12 @@ def snap(w, o, kind):
         d['dspin'] = w.spin_derivative if hasattr(w, 'spin_derivative') else None
     except Exception:
         d['dspin'] = None
+    # spin-rate derivative and polar torque are evaluated on demand by calc_spin_derivative (found by seed C13-i: values kept from an earlier evaluation)
+    try:
+        d['dspin_calc'] = w.calc_spin_derivative()
+        d['polar_torque'] = w.tidal_polar_torque
+    except Exception:
+        d['dspin_calc'] = d['polar_torque'] = None
     k = w.global_love_by_orderl if hasattr(w, 'global_love_by_orderl') else None
     d['k2'] = None if k is None else k.get(2)
     uf = w.tides.unique_tidal_frequencies
@@ -139,8 +145,9 @@ def snap(w, o, kind):
                   'host_e': host.eccentricity, 'host_n': host.orbital_frequency})
         try:
             d['host_dspin'] = host.calc_spin_derivative()
+            d['host_polar_torque'] = host.tidal_polar_torque
         except Exception:
-            d['host_dspin'] = None
+            d['host_dspin'] = d['host_polar_torque'] = None
         k = host.global_love_by_orderl
         d['host_k2'] = None if k is None else k.get(2)
         uf = host.tides.unique_tidal_frequencies
